@@ -534,11 +534,15 @@ func (fe *FnExec) setupEntry(fr *frame) {
 		switch x := v.(type) {
 		case PtrV:
 			fe.assume(sx("<=", x.Base, "HW"), "parameter object existed at entry")
+			fe.assume(sx("<=", sx("cell", x.Base), "HW"), "the cursor of a parameter existed at entry")
 			if obj, ok := fe.objOf(x); ok {
 				fe.assumeTypeInv(st, obj, "entry")
 			}
 		case RefV:
 			fe.assume(sx("<=", x.T, "HW"), "parameter object existed at entry")
+			if _, isI := p.Type().Underlying().(*types.Interface); isI {
+				fe.assume(sx("<=", sx("cell", x.T), "HW"), "the cursor of a parameter existed at entry")
+			}
 		}
 	}
 	for _, fv := range fn.FreeVars {
